@@ -56,8 +56,11 @@ type dOp struct {
 }
 
 type tOp struct {
-	dt    time.Duration
-	tick  bool
+	dt   time.Duration
+	tick bool
+	// run: the clock moves in steps of the reaper interval (100 ms) and the periodic arms run after
+	// every step, as in a running thread (tick: one run at the end of the step only)
+	run   bool
 	label string
 }
 
@@ -122,6 +125,8 @@ var (
 	t600 = tOp{dt: 600 * time.Millisecond, tick: true}
 	t5s  = tOp{dt: 5 * time.Second, tick: true}
 	a600 = tOp{dt: 600 * time.Millisecond, tick: false}
+	r700 = tOp{dt: 700 * time.Millisecond, tick: true, run: true}
+	r300 = tOp{dt: 300 * time.Millisecond, tick: true, run: true}
 )
 
 var slices = map[string]slice{
@@ -228,6 +233,19 @@ var slices = map[string]slice{
 		dextra: []dOp{{face: fwsim.N2, name: "/a/z0"}, {face: fwsim.N2, name: "/a/z100"}, {face: fwsim.N2, name: "/a/z249"},
 			{face: fwsim.N2, name: "/a/z0", tok: "echo0"}, {face: fwsim.N2, name: "/a/z249", tok: "echoGone"}},
 		tops: []tOp{t100, t600},
+	},
+	// expiry EXTENSION: an entry that already sits in the expiry queue gets a later expiry (a
+	// retransmission from the same face or the Interest of another face with the 4 s lifetime joins a
+	// 500 ms one) while other entries with short remaining lifetimes sit behind it in the queue - three
+	// names, so that the queue has a root and both children, short and long lifetimes arriving in
+	// every order; the reaper at its true cadence (R = a run of 100 ms steps, the periodic arms after
+	// each) and as single late runs; late Data by name, by live token and by the token of an entry
+	// that is gone, for the entries behind the extended one
+	"extend": {
+		inames: []string{"/a", "/a/b", "/a/b/c"}, ifaces: []uint64{fwsim.L1}, shapes: []string{"short"},
+		iextra: []iOp{{face: fwsim.N3, name: "/a"}, {face: fwsim.N3, name: "/a/b"}, {face: fwsim.L1, name: "/a"}, {face: fwsim.L1, name: "/a/b/c"}},
+		dextra: []dOp{{face: fwsim.N2, name: "/a/b"}, {face: fwsim.N2, name: "/a/b/c"}, {face: fwsim.N2, name: "/a/b", tok: "echo1"}, {face: fwsim.N2, name: "/a/b/c", tok: "echoGone"}},
+		tops:   []tOp{r700, r300, t600, t5s},
 	},
 	"time": {
 		inames: []string{"/a", "/a/b"}, ifaces: []uint64{fwsim.L1, fwsim.N3}, shapes: []string{"", "short", "cbp+short", "dup", "short+tok", "dup+tok", "zero"},
@@ -374,7 +392,9 @@ func (s slice) ops() (names []string, defs map[string]opDef) {
 			}
 			for _, t := range s.tops {
 				t := t
-				if t.tick {
+				if t.run {
+					t.label = fmt.Sprintf("R(%s)", t.dt)
+				} else if t.tick {
 					t.label = fmt.Sprintf("T(%s)", t.dt)
 				} else {
 					t.label = fmt.Sprintf("A(%s)", t.dt)
@@ -410,6 +430,9 @@ type sys struct {
 	allOps  []explore.Op
 	// deferred: every face is backlogged ("defer" in the configuration name), see inst.flush
 	deferred bool
+	// all: "t<K>/<N>" - N forwarding threads, all alive; the names of the universe are dispatched to
+	// thread K, whose PIT the reference is cross-checked against
+	all bool
 }
 
 type inst struct {
@@ -422,6 +445,7 @@ type inst struct {
 	gone  []uint32 // issued tokens whose PIT entry no longer exists (oldest first)
 	dump  table.VerifPitCsDump
 	queue []queued // "defer" mode: what the backlogged faces hold
+	all   bool     // every forwarding thread is alive (fwsim.InjectAll / TickAll)
 }
 
 // liveTok is an upstream-issued token whose PIT entry still exists in the real token map.
@@ -448,6 +472,7 @@ func build(cfgName string) explore.System {
 	// pipeline call has returned; "defer" = late, and every face is backlogged: it serialises its
 	// queue only at the next clock step
 	link, t1, nameA := false, false, "/a"
+	tk, tn := 0, 0
 	late := false
 	capacity := -1
 	for _, x := range strings.Fields(cfgName)[4:] {
@@ -461,6 +486,11 @@ func build(cfgName string) explore.System {
 		case x == "t1":
 			t1 = true
 			nameA = fwsim.New(fwsim.Config{ThreadID: 1}).NameForThread("a", "/b", "/b/c")
+			slc = slc.rename("/a", nameA)
+		case scan2(x, "t%d/%d", &tk, &tn) && tk >= 0 && tk < tn:
+			// every one of tn forwarding threads alive; the universe lives on thread tk
+			s.all = true
+			nameA = fwsim.New(fwsim.Config{ThreadID: tk, Threads: tn}).NameForThreadOf(tk, "a", "/b", "/b/c")
 			slc = slc.rename("/a", nameA)
 		case strings.HasPrefix(x, "dev<="):
 		case strings.HasPrefix(x, "cap="):
@@ -479,7 +509,7 @@ func build(cfgName string) explore.System {
 			hasRoot = true
 		}
 	}
-	if hasRoot && t1 {
+	if hasRoot && (t1 || s.all) {
 		report.Fatal("config %q: the root name is dispatched by hash, not renamed for thread 1", cfgName)
 	}
 	routine := map[string]bool{}
@@ -507,6 +537,9 @@ func build(cfgName string) explore.System {
 	}
 	if t1 {
 		s.cfg.ThreadID = 1
+	}
+	if s.all {
+		s.cfg.ThreadID, s.cfg.Threads = tk, tn
 	}
 	switch st {
 	case "br":
@@ -536,8 +569,36 @@ func build(cfgName string) explore.System {
 	return s
 }
 
+// inject: one arrival. With every forwarding thread alive ("t<K>/<N>") the packet is processed by
+// whichever thread(s) the real dispatch rule hands it to; otherwise by the driven thread only.
+func (in *inst) inject(face uint64, wire []byte, lp fwsim.LP) []fwsim.Send {
+	if in.all {
+		sends, _ := in.sim.InjectAll(face, wire, lp)
+		return sends
+	}
+	return in.sim.Inject(face, wire, lp)
+}
+
+// tick: the periodic arms (of every thread that is alive).
+func (in *inst) tick() []fwsim.Send {
+	if in.all {
+		return in.sim.TickAll()
+	}
+	return in.sim.Tick()
+}
+
+// echoTok: the bytes of the PIT token this forwarder attached when it forwarded the Interest of the
+// entry with entry token t - exactly what the upstream face was handed (whatever thread id they
+// carry); sim.Token(t) for a token that never left (cannot happen for live / gone tokens).
+func (in *inst) echoTok(t uint32) []byte {
+	if b, ok := in.ref.full[t]; ok {
+		return append([]byte{}, b...)
+	}
+	return in.sim.Token(t)
+}
+
 func (s *sys) New() any {
-	in := &inst{sim: fwsim.New(s.cfg), ref: newRef(s.cfg.CsAdmit && s.cfg.CsServe)}
+	in := &inst{sim: fwsim.New(s.cfg), ref: newRef(s.cfg.CsAdmit && s.cfg.CsServe), all: s.all}
 	in.ref.deferIssue = s.deferred
 	in.refresh()
 	return in
@@ -645,12 +706,12 @@ func (in *inst) dataToken(tok string) []byte {
 	case tok == "empty":
 		return []byte{}
 	case tok == "echo0":
-		return in.sim.Token(in.live[0].tok)
+		return in.echoTok(in.live[0].tok)
 	case tok == "echo1":
-		return in.sim.Token(in.live[1].tok)
+		return in.echoTok(in.live[1].tok)
 	case tok == "echoGone":
 		// a token this forwarder did attach, to an Interest whose PIT entry is gone by now
-		return in.sim.Token(in.gone[len(in.gone)-1])
+		return in.echoTok(in.gone[len(in.gone)-1])
 	case tok == "foreign":
 		return in.sim.Token(0xFFFFFFF1)
 	case tok == "wrongthread":
@@ -664,16 +725,21 @@ func (in *inst) dataToken(tok string) []byte {
 		}
 		return b[:n]
 	case scan(tok, "echo0+%d", &n) && n >= 1 && n <= 26:
-		b := in.sim.Token(in.live[0].tok)
+		b := in.echoTok(in.live[0].tok)
 		for i := 0; i < n; i++ {
 			b = append(b, byte(0x31+i))
 		}
 		return b
 	case scan(tok, "echo0-%d", &n) && n >= 1 && n <= 5:
-		return in.sim.Token(in.live[0].tok)[:6-n]
+		return in.echoTok(in.live[0].tok)[:6-n]
 	}
 	report.Fatal("unknown Data token shape %q", tok)
 	return nil
+}
+
+func scan2(s, format string, a, b *int) bool {
+	_, err := fmt.Sscanf(s, format, a, b)
+	return err == nil
 }
 
 func scan(s, format string, n *int) bool {
@@ -709,7 +775,7 @@ func (s *sys) step(in *inst, op explore.Op, check bool) (v []report.Violation) {
 			in.ref.nonceCtr++
 			nonce := 0x1000 + in.ref.nonceCtr
 			io := &iOp{face: o.face, name: fmt.Sprintf("%s/z%d", o.base, i), short: true}
-			sends := in.sim.Interest(o.face, fwsim.InterestSpec{Name: io.name, Nonce: fwsim.U32(nonce), Lifetime: fwsim.Dur(lifeShort)}, fwsim.LP{})
+			sends := in.inject(o.face, fwsim.MakeInterest(fwsim.InterestSpec{Name: io.name, Nonce: fwsim.U32(nonce), Lifetime: fwsim.Dur(lifeShort)}), fwsim.LP{})
 			stepSends = append(stepSends, sends...)
 			v = append(v, in.ref.onInterest(in, io, nonce, lifeShort, nil, sends, now)...)
 		}
@@ -737,7 +803,7 @@ func (s *sys) step(in *inst, op explore.Op, check bool) (v []report.Violation) {
 		if o.tok {
 			lp.PitToken = tokenOf(o.face, o.tokLen, in.sim.ThreadID())
 		}
-		sends := in.sim.Interest(o.face, is, lp)
+		sends := in.inject(o.face, fwsim.MakeInterest(is), lp)
 		stepSends = sends
 		in.refresh()
 		v = in.ref.onInterest(in, o, nonce, life, lp.PitToken, sends, now)
@@ -755,7 +821,7 @@ func (s *sys) step(in *inst, op explore.Op, check bool) (v []report.Violation) {
 			// a PitToken field of length zero exists only on the wire: the real link service decodes it
 			sends = in.sim.InjectFrame(o.face, fwsim.EncodeFrameToken(wire, []byte{}))
 		} else {
-			sends = in.sim.Inject(o.face, wire, lp)
+			sends = in.inject(o.face, wire, lp)
 		}
 		stepSends = sends
 		in.refresh()
@@ -767,11 +833,19 @@ func (s *sys) step(in *inst, op explore.Op, check bool) (v []report.Violation) {
 	case d.t != nil:
 		// time passes: the backlogged faces get round to serialising what they hold
 		v = append(v, in.flush()...)
-		in.sim.Advance(d.t.dt)
 		var sends []fwsim.Send
-		if d.t.tick {
-			sends = in.sim.Tick()
-			in.ref.ticks = append(in.ref.ticks, in.sim.Now())
+		if d.t.run {
+			for el := time.Duration(0); el < d.t.dt; el += 100 * time.Millisecond {
+				in.sim.Advance(100 * time.Millisecond)
+				sends = append(sends, in.tick()...)
+				in.ref.ticks = append(in.ref.ticks, in.sim.Now())
+			}
+		} else {
+			in.sim.Advance(d.t.dt)
+			if d.t.tick {
+				sends = in.tick()
+				in.ref.ticks = append(in.ref.ticks, in.sim.Now())
+			}
 		}
 		in.refresh()
 		for _, sd := range sends {
@@ -807,12 +881,13 @@ func (in *inst) flush() (v []report.Violation) {
 	for _, q := range in.queue {
 		late := q.send.Reread()
 		if q.send.Kind == fwsim.KInterest {
-			if th, t, ok := fwsim.IssuedToken(late.PitToken); ok && int(th) == in.sim.ThreadID() {
+			if _, t, ok := fwsim.IssuedToken(late.PitToken); ok {
 				e := q.e
 				if e == nil || r.pend[q.key] != e {
 					e = nil // that incarnation of the entry is gone (satisfied or expired meanwhile)
 				}
 				r.attach(t, q.key, e)
+				r.full[t] = append([]byte{}, late.PitToken...)
 			}
 			continue
 		}
@@ -840,7 +915,7 @@ func (s *sys) CheckState(i any) (v []report.Violation) {
 	}
 	o := in.lastD
 	now := in.sim.Now()
-	sends := in.sim.Inject(o.face, in.lastW, fwsim.LP{PitToken: in.lastT})
+	sends := in.inject(o.face, in.lastW, fwsim.LP{PitToken: in.lastT})
 	in.refresh()
 	for _, x := range in.ref.onData(in, o.face, o.name, in.lastT, in.lastW, sends, now, true) {
 		x.Clause = "C01.consume"
@@ -1029,6 +1104,13 @@ func configs(th bool) (c []explore.Config) {
 		add("time", "br", "cs0", "tree", 4)
 		add("tokens", "mc", "cs1", "tree link", 4) // arrivals through the real NDNLPLinkService
 		add("tokens", "br", "cs1", "ht t1", 4)     // the driven thread is thread 1 of 2
+		// every forwarding thread ALIVE (2 and 3 threads): the universe lives on the first / a middle
+		// thread, what the real dispatch hands to another thread is processed there
+		add("tokens", "mc", "cs1", "tree t0/2", 4)
+		add("core", "br", "cs0", "ht t1/3 link", 5)
+		// expiry extension of queued entries
+		add("extend", "br", "cs0", "tree", 5)
+		add("extend", "mc", "cs1", "ht", 4)
 		add("core", "br", "cs1", "tree", 6)
 		add("core", "mc", "cs0", "ht", 6)
 		// audit of the canonical form, and a deep history search, both WITHOUT de-duplication
@@ -1078,6 +1160,13 @@ func configs(th bool) (c []explore.Config) {
 			add("root", st, cs, "ht link", 5)
 		}
 		add("tokshape", st, "cs1", "tree t1", 4)
+		add("tokshape", st, "cs0", "tree t0/2", 4)
+		add("tokens", st, "cs1", "ht t0/2", 5)
+		add("tokens", st, "cs0", "tree t1/3 link", 5)
+		add("core", st, "cs1", "tree t2/4", 6)
+		add("extend", st, "cs0", "tree", 6)
+		add("extend", st, "cs1", "ht late", 6)
+		add("extend", st, "cs1", "tree t0/2", 5)
 		add("tokshape", st, "cs0", "ht defer", 4)
 		add("root", st, "cs1", "tree late", 5)
 	}
@@ -1203,11 +1292,12 @@ func main() {
 			}
 			cov["oracle_branches_exercised"] = o
 			cov["dispatch_agreement_pass"] = dispatchPass(rep)
+			cov["threads_alive_pass"] = threadsPass(rep)
 		},
-		Rule: "BFS over histories of Interest arrivals I(face,name,CanBePrefix,MustBeFresh,nonce fresh|repeated,lifetime 4s|500ms|0,PIT token), Data arrivals D(face,name,freshness,token none|echo of a live upstream token|foreign 6-byte|4-byte; alphabet tokshape: every token shape - absent, empty field, fixed bytes of length 1..8 and 32, 6 bytes never issued / naming another thread / naming no thread, a live token extended to 7, 8, 32 bytes or cut to 5, 4 bytes - against downstream tokens of 1, 2, 6 (own-looking), 8, 32 bytes) and clock steps T(dt)+reaper tick / A(dt) without tick, on one real fw.Thread with real PIT-CS, dead nonce list, FIB (tree, hash table) and strategies (best-route, multicast), cache on/off/admit-only, content-store capacity 1024 (never evicts) and 0|1|2 on the cache alphabet; focused alphabets (names, tokens, flags, time, cache, burst = B(face,k): k in {101,250} Interests with distinct names and the 500 ms lifetime arriving in one step); recording faces that read what they were handed (PIT token, bytes) at the SendPacket call, or only after the pipeline call returned ('late'), or - backlogged faces, 'defer' - only at the next clock step, the token read THEN being the one the upstream can echo and the Data copy read THEN being judged again; after every transition every SendPacket is compared with a three-valued reference of pending Interests and the reference is cross-checked against the white-box PIT dump; states de-duplicated on reference + white-box dump (clock-relative, tokens renamed by entry, nonces by equality with the last nonce per name)",
+		Rule: "BFS over histories of Interest arrivals I(face,name,CanBePrefix,MustBeFresh,nonce fresh|repeated,lifetime 4s|500ms|0,PIT token), Data arrivals D(face,name,freshness,token none|echo of a live upstream token|foreign 6-byte|4-byte; alphabet tokshape: every token shape - absent, empty field, fixed bytes of length 1..8 and 32, 6 bytes never issued / naming another thread / naming no thread, a live token extended to 7, 8, 32 bytes or cut to 5, 4 bytes - against downstream tokens of 1, 2, 6 (own-looking), 8, 32 bytes) and clock steps T(dt)+reaper tick / A(dt) without tick, on one real fw.Thread with real PIT-CS, dead nonce list, FIB (tree, hash table) and strategies (best-route, multicast), cache on/off/admit-only, content-store capacity 1024 (never evicts) and 0|1|2 on the cache alphabet; focused alphabets (names, tokens, flags, time, cache, burst = B(face,k): k in {101,250} Interests with distinct names and the 500 ms lifetime arriving in one step); recording faces that read what they were handed (PIT token, bytes) at the SendPacket call, or only after the pipeline call returned ('late'), or - backlogged faces, 'defer' - only at the next clock step, the token read THEN being the one the upstream can echo and the Data copy read THEN being judged again; after every transition every SendPacket is compared with a three-valued reference of pending Interests and the reference is cross-checked against the white-box PIT dump; alphabet extend: 500 ms Interests for three names whose queued expiry is moved later by a 4 s retransmission / aggregation in every order, with the reaper at its true cadence R(dt) = dt/100 ms steps each followed by the periodic arms; configurations t<K>/<N>: N real forwarding threads ALL alive, the universe on thread K, every arrival processed by the thread(s) the real dispatch rule picks, an echoed token being exactly the six bytes the upstream face was handed; plus the threads-alive pass (thread counts 1,2,3,4,5,8,16 x both strategies x both arrival paths x 51 names x every prefix: token round trip per name, and all names pending at once on all threads answered in reverse order); states de-duplicated on reference + white-box dump (clock-relative, tokens renamed by entry, nonces by equality with the last nonce per name)",
 		Assumptions: []string{
 			"'a token in this forwarder's format' = exactly six bytes; it echoes a token this forwarder attached only if its first two bytes name the driven thread and the last four are an entry token that left on a forwarded Interest; six bytes naming another thread satisfy nothing; every other length (also 7..32 bytes that START with a live token) is matched by name",
-			"faces are simulated at the dispatch.Face seam: a received frame is turned into defn.Pkt exactly as NDNLPLinkService.handleIncomingFrame + dispatchInterest/dispatchData do (copied field by field in verif/harness/fwsim), one forwarding thread (id 0)",
+			"faces are simulated at the dispatch.Face seam: a received frame is turned into defn.Pkt exactly as NDNLPLinkService.handleIncomingFrame + dispatchInterest/dispatchData do (copied field by field in verif/harness/fwsim), one driven forwarding thread (id 0; 't1': thread 1 of 2 with the other thread idle); in the configurations 't<K>/<N>' and in the threads-alive pass all N threads are alive and a packet is processed by every thread the real dispatch rule (name hash / thread id in a 6-byte token / all prefix threads for token-less Data of a local face) hands it to, in thread order",
 			"the clock is virtual (verif/shim/vtime) and PIT tokens come from verif/shim/vrand; the reaper runs only in T(dt) steps, once, after the clock moved",
 			"equal canonical state (reference records + live tokens + per-name nonce/dead-nonce status + private PIT-CS dump with queue priorities, all times relative to now) implies equal futures; out-record ages are saturated at the 500 ms suppression window, expired times at 0",
 			"where the property leaves a choice the observed behaviour is adopted into the reference: whether an Interest of a non-local face whose cache answer (/localhost Data matching '/' + CanBePrefix) a scope rule withholds counts as answered or stays pending; whether an Interest repeating an already seen (name, nonce) is recorded; whether a record past its own lifetime still exists; whether Data echoing a token that was not attached to the currently pending Interest of that entry matches",
